@@ -85,6 +85,7 @@ REQUIRED = [
     'wipv6_HEADER_LEN', 'wicmpv4_HEADER_END',
     'wtcp_HEADER_LEN', 'dns_MDNS_DNS_PORT',
     'cfg_IPV6_HBH_MAX_OPTIONS', 'wv6opt_DATA_LEN',
+    'cubic_DEFAULT_MSS',
 ]
 
 INT = r'(?:0x[0-9a-fA-F_]+|0b[01_]+|[0-9][0-9_]*)'
